@@ -87,7 +87,7 @@ def files_for(idx: SourceIndex, tier: str) -> list[str]:
 def run(rep: Report, tier: str) -> None:
 	idx = SourceIndex()
 	r = rep.rule('C08/anchored-name-tests', 'every prefix/suffix/substring/split/replace/regex/length test on an identifier-carrying string is separator-anchored or triaged', floor=12)
-	inv = rep.rule('C08/string-op-inventory', 'inventory of all string-structure operations in the scanned files (tainted or not), so the lint cannot go blind', floor=35, armed=False)
+	inv = rep.rule('C08/string-op-inventory', 'inventory of all string-structure operations in the scanned files (tainted or not), so the lint cannot go blind', floor=30, armed=False)
 	used = set()
 	tainted_sites: list[Site] = []
 	for rel in files_for(idx, tier):
